@@ -1,7 +1,7 @@
 (* C14 — syscall-level model of the copier's write path (/repo/copy, Linux build, incl. the fixes
    796fe1f / 92eb743, forgetLinkSources (the hard-link map drops the paths at or below a destination
    entry the copier is about to remove or replace), ENOTDIR tolerated at the target Lstat of
-   copier.copy, ".." in Copy's ensureDstPath test) as sequences of Model/Fs.v syscalls issued by a process with
+   copier.copy, ".." in Copy's ensureDstPath test, stillBelow in fixCreatedParentDirs) as sequences of Model/Fs.v syscalls issued by a process with
    context [c] (real root and working directory; srcRoot / dstRoot are ordinary path strings).
 
    Go                                         here
@@ -166,17 +166,38 @@ Fixpoint mkdir_all (fuel : nat) (c : ctx) (o : copts) (p : bytes) : M (list byte
     end
   end.
 
-(* fixCreatedParentDirs: errors are dropped (deferred call) *)
-Fixpoint fix_created (c : ctx) (tm : option N) (dirs : list bytes) : M unit :=
+(* filepath.Rel(root, d) for a clean absolute d: Some rel when d lies strictly below root *)
+Definition rel_below (root d : bytes) : option bytes :=
+  if bytes_eqb root [sep] then
+    (if bytes_eqb d [sep] then None else if is_abs d then Some (skipn 1 d) else None)
+  else if has_prefix (root ++ [sep]) d then Some (skipn (length root + 1) d) else None.
+
+(* stillBelow(root, d): d is not below root (root itself, its ancestors), or fs.RootPath resolves
+   it to itself again: no component below root is a symlink now *)
+Definition still_below (c : ctx) (f : fs) (root d : bytes) : bool :=
+  if is_nil root then true
+  else match rel_below root d with
+       | None => true
+       | Some rel => match root_path c f root rel with
+                     | inl p => bytes_eqb p d
+                     | inr _ => false
+                     end
+       end.
+
+(* fixCreatedParentDirs(root, dirs, tm): errors are dropped (deferred call) *)
+Fixpoint fix_created (c : ctx) (root : bytes) (tm : option N) (dirs : list bytes) : M unit :=
   match dirs with
   | [] => ret tt
   | d :: r =>
     match tm with
     | None => ret tt
-    | Some t => (fun s => match sys (fun f => sys_utimens c f d t) s with
-                          | (s', inl ROk) => fix_created c tm r s'
-                          | (s', _) => (s', inl tt)     (* first error stops the loop, silently *)
-                          end)
+    | Some t => (fun s =>
+        if still_below c (s_fs s) root d then
+          match sys (fun f => sys_utimens c f d t) s with
+          | (s', inl ROk) => fix_created c root tm r s'
+          | (s', _) => (s', inl tt)     (* first error stops the loop, silently *)
+          end
+        else fix_created c root tm r s)
     end
   end.
 
@@ -436,10 +457,10 @@ Fixpoint copy_sources (fuel : nat) (c : ctx) (o : copts) (src_root dst_root dst 
     end
   end.
 
-Fixpoint run_fixes (c : ctx) (tm : option N) (batches : list (list bytes)) : M unit :=
+Fixpoint run_fixes (c : ctx) (root : bytes) (tm : option N) (batches : list (list bytes)) : M unit :=
   match batches with
   | [] => ret tt
-  | b :: r => fix_created c tm (rev b) ;;; run_fixes c tm r
+  | b :: r => fix_created c root tm (rev b) ;;; run_fixes c root tm r
   end.
 
 (* [matches]: None = no wildcards (the source is [src]); Some l = AllowWildcards with the matches l *)
@@ -465,7 +486,7 @@ Definition copy_top (fuel : nat) (c : ctx) (o : copts) (src_root src dst_root ds
       | Some [] => (s1, inr E_NOMATCH, batches0)
       | _ => copy_sources fuel c o src_root dst_root dst srcs batches0 s1
       end in
-    (fst (run_fixes c (o_utime o) batches s2), res)
+    (fst (run_fixes c dst_root (o_utime o) batches s2), res)
   end.
 
 Definition cst_init (f : fs) : cst := {| s_fs := f; s_links := []; s_reads := [] |}.
